@@ -42,6 +42,12 @@ class Recorder(object):
         self.match_calls = []
         self.validations = []  # validator decisions: dict(validator, order, inputs, veto)
         self.pf_ops = []       # portfolio-level operations
+        self.inputs = []       # everything that drives the run, in order: day events (system side) and the strategy's calls (free-running world)
+
+    def attach(self, accounts, pf, open_ids):
+        """the observable state after everything up to now: attached to the latest input"""
+        if self.inputs:
+            self.inputs[-1]["snap"] = {"accounts": accounts, "pf": pf, "open": open_ids}
 
     def now(self):
         from rqalpha.environment import Environment
@@ -66,6 +72,10 @@ def instrument(rec):
             nested = rec.depth > 0
             pre = None if nested else snap_account(self)
             args = make_args(self, *a, **k)
+            if name == "_on_settlement" and not (rec.inputs and rec.inputs[-1]["k"] == "S" and rec.inputs[-1]["today"] == args["today"]):
+                rec.inputs.append({"k": "S", "today": args["today"]})
+            elif name == "finance_repay" and not nested:
+                rec.inputs.append({"k": "F", "acct": self.type, "amount": args["amount"]})
             rec.depth += 1
             raised = None
             try:
@@ -280,6 +290,10 @@ def instrument(rec):
         def w(self, *a, **k):
             pre = pf_snap(self)
             args = make_args(self, *a, **k)
+            if name == "_pre_before_trading":
+                rec.inputs.append({"k": "P", "today": d8(Environment.get_instance().trading_dt), "pf_pre": pre})
+            else:
+                rec.inputs.append(dict(args, k="D"))
             raised = None
             try:
                 return orig(self, *a, **k)
@@ -292,6 +306,43 @@ def instrument(rec):
     wrap_pf("deposit_withdraw", lambda self, account_type, amount, receiving_days=0: {"account": account_type, "amount": float(amount), "days": receiving_days,
                                                                                     "today": d8(Environment.get_instance().trading_dt)})
     wrap_pf("_pre_before_trading", lambda self, ev: {})
+    # ---- the inputs of the free-running world: broker-side day events, order submissions, cancels
+    from rqalpha.mod.rqalpha_mod_sys_simulation.simulation_broker import SimulationBroker
+    from rqalpha.core.strategy import Strategy
+
+    def wrap_marker(cls, name, make):
+        orig = getattr(cls, name)
+        saved[(cls, name)] = orig
+
+        def w(self, *a, **k):
+            rec.inputs.append(make(self, *a, **k))
+            return orig(self, *a, **k)
+        setattr(cls, name, w)
+    today_ = lambda: d8(Environment.get_instance().trading_dt)
+    wrap_marker(SimulationBroker, "before_trading", lambda self, ev: {"k": "B", "today": today_()})
+    wrap_marker(SimulationBroker, "on_bar", lambda self, ev: {"k": "R", "today": today_()})
+    wrap_marker(SimulationBroker, "after_trading", lambda self, ev: {"k": "T", "today": today_()})
+    wrap_marker(SimulationBroker, "cancel_order", lambda self, order: {"k": "C", "id": order.order_id})
+    wrap_marker(Strategy, "open_auction", lambda self, ev: {"k": "A", "today": today_()})
+    orig_can = Environment.can_submit_order
+    saved[(Environment, "can_submit_order")] = orig_can
+
+    def can_w(self, order):
+        item = {"k": "O", "order": order_in(order), "depth": rec.depth, "passed": None, "submitted": False}
+        rec.inputs.append(item)
+        item["passed"] = bool(orig_can(self, order))
+        return item["passed"]
+    Environment.can_submit_order = can_w
+    orig_bsub = SimulationBroker.submit_order
+    saved[(SimulationBroker, "submit_order")] = orig_bsub
+
+    def bsub_w(self, order):
+        for item in reversed(rec.inputs):
+            if item["k"] == "O" and item["order"]["id"] == order.order_id:
+                item["submitted"] = True
+                break
+        return orig_bsub(self, order)
+    SimulationBroker.submit_order = bsub_w
     try:
         yield rec
     finally:
